@@ -1,7 +1,7 @@
 (* Lemmas about the exchange-rate look-up model (C12): the calendar, the
    year map built by fill_in_unknown_day_rates, and the equivalence of the
    stateless look-up with the declarative rule of Spec/RateRule.v. *)
-From Coq Require Import List NArith ZArith QArith Qcanon Bool Lia.
+From Coq Require Import List NArith ZArith QArith Qcanon Bool Lia Lqa.
 From ACB Require Import Base.Outcome Base.QcExtra Base.Fit Base.Arith
      Model.Rates Model.RatesCache Spec.RateRule.
 Import ListNotations.
@@ -588,3 +588,74 @@ Proof.
   - cbn [bind]. try reflexivity; try (destruct (rates_of_raw t); reflexivity).
 Qed.
 
+
+(* ---- an inverted observation is never the zero placeholder ---- *)
+Lemma rhe_ge_one x d : Zpos d <= x -> 1 <= rhe x d.
+Proof.
+  intros H. unfold rhe.
+  assert (Hq : 1 <= x / Zpos d) by (apply Z.div_le_lower_bound; lia).
+  destruct (2 * (x mod Zpos d) ?= Zpos d); [destruct (Z.even (x / Zpos d)) | | ]; lia.
+Qed.
+
+Lemma rhe_le x d : 0 <= x -> rhe x d <= x / Zpos d + 1.
+Proof.
+  intros H. unfold rhe.
+  destruct (2 * (x mod Zpos d) ?= Zpos d); [destruct (Z.even (x / Zpos d)) | | ]; lia.
+Qed.
+
+Lemma Qcfrac_nonzero m p : m <> 0 -> Qcfrac m p <> 0%Qc.
+Proof.
+  intros H E. apply Qc_eq_Qeq in E. unfold Qcfrac, Q2Qc in E. cbn [this] in E.
+  rewrite !Qred_correct in E. unfold Qeq in E. cbn [Qnum Qden] in E. lia.
+Qed.
+
+Lemma fit_from_nonzero d : forall s n r,
+  0 < n -> Zpos d <= n * Zpos (p10 s) -> fit_from s n d = Some r -> r <> 0%Qc.
+Proof.
+  induction s as [| s IH]; intros n r Hn Hge H; cbn [fit_from] in H.
+  - set (m := rhe (n * Zpos (p10 0)) d) in *.
+    pose proof (rhe_ge_one _ _ Hge : 1 <= m) as H1.
+    destruct (Z.abs m <=? max_mant); [ | discriminate ].
+    inversion H; subst r. apply Qcfrac_nonzero. lia.
+  - set (x := n * Zpos (p10 (S s))) in *. set (m := rhe x d) in *.
+    pose proof (rhe_ge_one x d Hge : 1 <= m) as H1.
+    destruct (Z.leb_spec (Z.abs m) max_mant) as [L | G].
+    + inversion H; subst r. apply Qcfrac_nonzero. lia.
+    + apply (IH n r Hn); [ | exact H ].
+      assert (Hx : 0 <= x) by (unfold x; lia).
+      pose proof (rhe_le x d Hx) as Hle. fold m in Hle.
+      assert (Hdiv : max_mant <= x / Zpos d) by lia.
+      assert (Hxd : max_mant * Zpos d <= x).
+      { pose proof (Z.mul_div_le x (Zpos d) ltac:(lia)). nia. }
+      assert (Hp : Zpos (p10 (S s)) = 10 * Zpos (p10 s)).
+      { destruct s as [| s']; [reflexivity | ].
+        unfold p10, pow10. rewrite Nat2Pos.inj_succ by discriminate.
+        rewrite Pos.pow_succ_r. reflexivity. }
+      unfold x in Hxd. rewrite Hp in Hxd. unfold max_mant in Hxd. nia.
+Qed.
+
+(* an inverted observation is never the zero placeholder: for every raw value
+   0 < v <= 10^28, 1/v rounds to a non-zero rate *)
+Lemma inverted_nonzero (v x : Qc) :
+  (0 < v)%Qc -> (v <= Qcfrac 10000000000000000000000000000 1)%Qc ->
+  a_div dec 1%Qc v = Ok x -> x <> 0%Qc.
+Proof.
+  intros Hpos Hle H. cbn [a_div dec] in H.
+  destruct (Qceqb v 0%Qc); [discriminate | ].
+  unfold fit_res in H. destruct (fit (1 / v)%Qc) as [r |] eqn:E; [ | discriminate ].
+  inversion H; subst x. unfold fit in E.
+  set (q := (1 / v)%Qc) in *.
+  assert (Hv : (0 < this v)%Q).
+  { unfold Qclt, Q2Qc in Hpos. cbn [this] in Hpos. rewrite Qred_correct in Hpos. exact Hpos. }
+  assert (Hv2 : (this v <= 10000000000000000000000000000 # 1)%Q).
+  { unfold Qcle, Qcfrac, Q2Qc in Hle. cbn [this] in Hle. rewrite Qred_correct in Hle. exact Hle. }
+  assert (Hq : (1 # 10000000000000000000000000000 <= this q)%Q).
+  { unfold q, Qcdiv, Qcmult, Qcinv, Q2Qc. cbn [this]. rewrite !Qred_correct.
+    change (1 * / this v)%Q with (1 / this v)%Q.
+    apply Qle_shift_div_l; [exact Hv | ]. lra. }
+  assert (Hn : 0 < Qnum (this q)).
+  { unfold Qle in Hq. cbn [Qnum Qden] in Hq. lia. }
+  apply (fit_from_nonzero (Qden (this q)) 28 (Qnum (this q)) r Hn); [ | exact E ].
+  unfold Qle in Hq. cbn [Qnum Qden] in Hq.
+  change (Zpos (p10 28)) with 10000000000000000000000000000. lia.
+Qed.
